@@ -52,8 +52,11 @@ fn variants(s: &str) -> Vec<String> {
         }
         sz /= 2;
     }
-    // every span up to 48 characters
-    for len in (1..=48usize.min(n)).rev() {
+    // spans of selected lengths at every position
+    for len in [48usize, 32, 24, 16, 12, 8, 6, 5, 4, 3, 2, 1] {
+        if len > n {
+            continue;
+        }
         for i in 0..=(n - len) {
             out.push(format!("{}{}", &s[..b[i]], &s[b[i + len]..]));
         }
@@ -205,5 +208,50 @@ pub fn show_errors(text: &str) {
     let a = AnalyzedSource::new(text.to_string());
     for e in a.errors() {
         println!("{:?} {:?} {}", e.0, text.get(e.0.clone()), e.1.to_string().trim());
+    }
+}
+
+/// Shrink a single change under an arbitrary predicate (character-level, all spans up to 48).
+pub fn shrink_with(mut c: Mini, pred: &dyn Fn(&Mini) -> bool) -> Mini {
+    let mut budget = 40_000usize;
+    loop {
+        let mut improved = false;
+        for field in 0..4 {
+            let cur = match field {
+                0 => c.pre.clone(),
+                1 => c.suf.clone(),
+                2 => c.del.clone(),
+                _ => c.ins.clone(),
+            };
+            for v in variants(&cur) {
+                if budget == 0 {
+                    return c;
+                }
+                let mut c2 = c.clone();
+                match field {
+                    0 => c2.pre = v,
+                    1 => c2.suf = v,
+                    2 => c2.del = v,
+                    _ => c2.ins = v,
+                }
+                if c2.size() < c.size() {
+                    budget -= 1;
+                    if pred(&c2) {
+                        c = c2;
+                        improved = true;
+                        break;
+                    }
+                }
+            }
+        }
+        if !improved {
+            return c;
+        }
+    }
+}
+
+impl Mini {
+    pub fn old_text(&self) -> String {
+        self.old()
     }
 }
